@@ -248,9 +248,18 @@ class BatcherRig:
             rec.dones[rec.ncallers] = [0, EXC]
             rec.ncallers += 1
 
-    def close(self, l):
+    def close(self, l, keep=None):
         rec = self.recs[l]
         self.by_loop.pop(id(rec.sim.loop), None)
+        if keep is not None:
+            # the application keeps a reference to its closed loop (keep = hook for is_closed, see run_loops_par)
+            rec.sim.loop.is_closed = keep(rec.sim.loop)
+            self.kept = getattr(self, 'kept', []) + [rec.sim.loop]
+            rec.sim.close()
+            rec.tasks = []
+            rec.gates = {}
+            rec.sim = None
+            return
         rec.sim.close()
         # drop every reference to the loop so that its memory can be reused
         rec.tasks = []
@@ -383,17 +392,51 @@ def run_loops(cfg, plan, form='deco'):
 
 
 def run_loops_par(cfg, plan, form='deco'):
-    """Same observation as run_loops, but every loop is driven by its own real
-    thread, all at once (the 'close' steps are applied after all threads ended).
-    Each loop's trace is a function of its own script alone iff the loops are
-    independent, which is what is being checked."""
+    """Same observation as run_loops, but the loops are driven by one real thread each, all at once.
+    The plan up to and including its last 'close' step is first run sequentially (as run_loops does) — those
+    closed loops STAY REFERENCED, like an application that keeps its old loop object around; the segments after
+    it are then run concurrently, one thread per loop, started behind a barrier.
+    Each loop's trace is a function of its own script alone iff the loops are independent, which is what is
+    being checked.
+    To make "concurrently" bite on code that inspects other loops from a caller's thread, `is_closed()` of the
+    kept closed loops is harness-owned: when a worker thread asks a closed loop whether it is closed (asyncio
+    never does that from a foreign thread; only library code walking a registry of loops can), the thread is
+    parked until every worker thread has asked too (or 3 s passed) — all of them have then seen the same
+    snapshot before any acts on it.  Never touched on the unchanged tree."""
     import threading
     logging.disable(logging.CRITICAL)
     rig = BatcherRig(cfg, form)
+    last_close = max((i for i, st in enumerate(plan) if st[0] == 'close'), default=-1)
+    prefix, rest = plan[:last_close + 1], plan[last_close + 1:]
     per = {}
-    for step in plan:
+    for step in rest:
         if step[0] == 'seg':
             per.setdefault(step[1], []).append(step[2])
+    racers, parked = set(), set()
+    gate = threading.Barrier(len(per)) if per else None
+
+    def hook(loop):
+        real = type(loop).is_closed
+
+        def is_closed():
+            closed = real(loop)
+            th = threading.current_thread()
+            if closed and th in racers and th not in parked:
+                parked.add(th)
+                try:
+                    gate.wait(3)
+                except threading.BrokenBarrierError:
+                    pass
+            return closed
+        return is_closed
+
+    out = {}
+    for step in prefix:
+        if step[0] == 'seg':
+            rig.run_segment(step[1], step[2])
+        elif step[1] in rig.recs and rig.recs[step[1]].sim is not None:
+            out[step[1]] = rig.obs(step[1])
+            rig.close(step[1], keep=hook)
     for l in per:
         rig.rec(l)                      # loops are created up front, in the main thread
     barrier = threading.Barrier(len(per)) if per else None
@@ -412,12 +455,15 @@ def run_loops_par(cfg, plan, form='deco'):
 
     try:
         ths = [threading.Thread(target=work, args=(l,)) for l in sorted(per)]
+        racers.update(ths)
         for t in ths:
             t.start()
         for t in ths:
             t.join(60)
         hung = any(t.is_alive() for t in ths)
-        out = {l: rig.obs(l) for l in rig.recs}
+        for l in rig.recs:
+            if l not in out:
+                out[l] = rig.obs(l)
         return dict(loops=[[l, out[l]] for l in sorted(out)], cross=rig.cross + (1 if hung or errs else 0))
     finally:
         rig.shutdown()
